@@ -20,6 +20,11 @@ expand     every spec built from the axes (code params 1-3 x form, noise params
            (and, for one spec per case, the `panqec run` click command itself);
            the built simulations are compared AS A MULTISET with a reference
            Cartesian product written as nested loops here.
+splitting  the same with method {"name": "splitting", "parameters": {...}}: one
+           SplittingSimulation per (code, noise, decoder parameters), holding every
+           requested rate once, decoders[i] built for error_rates[i] (rate lists
+           ascending / descending / unsorted, 1-4 rates), method parameters and
+           recorded inputs as requested.
 """
 import collections
 import contextlib
@@ -62,14 +67,23 @@ LEVEL_NOTE = ('Composite decoders (any decoder holding BaseDecoder sub-objects: 
               'the parameters one simulation records or hands out must not change another); that equal-valued runs '
               'returned by expand_input_ranges alias the caller\'s parameter containers is only counted '
               '(expanded_runs_aliasing_a_parameter_container), nothing in panqec mutates them. Not '
-              'covered: more than 3 values per axis, the splitting method, specs holding both "runs" and "ranges", '
-              'count_runs, user-registered classes.')
+              'covered: more than 3 values per axis (4 rates for the splitting method), specs holding both "runs" '
+              'and "ranges", count_runs, user-registered classes. Splitting method (covered): specs with method '
+              '{"name": "splitting"} as a single ranges dict and next to a direct-method range in a list of ranges '
+              '(explicit "runs" cannot name a method); only how the simulations are BUILT is decided here (one per '
+              'code x noise x decoder-parameter element, all rates once, decoders[i] built for error_rates[i] with '
+              'the requested parameters on that code and noise, method parameters, recorded inputs); the order in '
+              'which a simulation keeps its rates is not prescribed; running the Markov chain is not part of C13.')
 RULE = ('registry: every key of the three registries and every exported code class (distinct = distinct name). '
         'roundtrip: every (class, size, noise, decoder, decoder parameter set) whose original objects construct; '
         'distinct = distinct recorded-inputs JSON; non-trivial = the recorded inputs name a class and carry '
         'parameters (all do). expand: every combination of (family, container, code form x count, noise form x '
         'count, decoder parameter form, rate form x count); distinct = distinct spec JSON; non-trivial = the '
-        'reference product has >= 2 elements (a dropped / duplicated / zipped axis is then observable)')
+        'reference product has >= 2 elements (a dropped / duplicated / zipped axis is then observable). '
+        'splitting: every combination of (family incl. the composite-decoder family, container in {ranges, list of '
+        'ranges}, code form x count, noise form x count, decoder parameter form, rate list in {scalar, ascending, '
+        'descending, unsorted} x 1..4 rates, method parameter set); distinct = distinct spec JSON; non-trivial = '
+        '>= 2 rates (a decoder paired with another rate is then observable)')
 ASSUMPTIONS = [
     'n = 2ab (Toric2D), 2ab-a-b+1 (Planar2D), ab (RotatedPlanar2D), 3abc (Toric3D) as reference qubit counts',
     'omitted lattice lengths default to L_x (L_z only for 3-D classes), omitted decoder parameters default to '
@@ -78,9 +92,11 @@ ASSUMPTIONS = [
     'a code / noise / decoder object built twice from equal parameters in one process is identical (C02)',
 ]
 BOUNDS = {
-    'quick': {'families': 2, 'composite_decoder_families': 1, 'values_per_axis': 3, 'roundtrip_sizes_per_class': 2,
+    'quick': {'families': 2, 'composite_decoder_families': 1, 'splitting_rates': [1, 4],
+              'splitting_rate_orders': ['scalar', 'asc', 'desc', 'unsorted'], 'values_per_axis': 3, 'roundtrip_sizes_per_class': 2,
               'containers': ['ranges', 'ranges-list', 'runs']},
-    'thorough': {'families': 4, 'composite_decoder_families': 1, 'values_per_axis': 3, 'roundtrip_max_n': 150,
+    'thorough': {'families': 4, 'composite_decoder_families': 1, 'splitting_rates': [1, 4],
+                 'splitting_rate_orders': ['scalar', 'asc', 'desc', 'unsorted'], 'values_per_axis': 3, 'roundtrip_max_n': 150,
                  'roundtrip_l_max_2d': 6,
                  'roundtrip_l_max_3d': 4, 'containers': ['ranges', 'ranges-list', 'runs']},
 }
@@ -134,6 +150,18 @@ RATE_FORMS = [('scalar', 1), ('list', 1), ('list', 2), ('list', 3), ('scalar-zer
 _ZERO_RATES = {1: [0], 2: [0.0, 0.1]}     # a zero rate is falsy: must still be one requested rate
 FORM_COUNTS = [('dict', 1), ('list', 1), ('poslist', 1), ('list', 2), ('poslist', 2), ('list', 3), ('poslist', 3),
                ('rlist', 3), ('rlist', 2)]
+
+# splitting-method part: rate lists (ascending / descending / unsorted, 1..4 rates; a bare scalar) and method
+# parameter sets; code / noise forms reduced as for the composite families (the form axes are covered above)
+SPLIT_RATE_FORMS = [
+    ('scalar', 1, 0.1), ('asc', 1, [0.1]),
+    ('asc', 2, [0.05, 0.2]), ('desc', 2, [0.2, 0.05]),
+    ('asc', 3, [0.05, 0.1, 0.3]), ('desc', 3, [0.3, 0.1, 0.05]), ('unsorted', 3, [0.1, 0.3, 0.05]),
+    ('asc', 4, [0.05, 0.1, 0.2, 0.3]), ('desc', 4, [0.3, 0.2, 0.1, 0.05]), ('unsorted', 4, [0.1, 0.3, 0.05, 0.2]),
+]
+SPLIT_METHOD_PARAMS = [{'n_init_runs': 7}, {'n_init_runs': 3, 'start_run': 2}]
+_SPLIT_FORM_COUNTS = {'quick': [('dict', 1), ('poslist', 2)],
+                      'thorough': [('dict', 1), ('list', 2), ('poslist', 3), ('rlist', 3)]}
 
 # roundtrip part
 _RT_NOISE = [{'r_x': 1, 'r_y': 0, 'r_z': 0},
@@ -445,6 +473,17 @@ def cases(tier, seed):
     ex.sort(key=lambda c: (c['n_code'] * c['n_noise'], c['family'], b['containers'].index(c['container']),
                            c['n_code'], c['code_form'], c['noise_form']))
     out += ex
+    # splitting method: ranges / list of ranges (explicit "runs" cannot name a method)
+    sp = []
+    fams = list(range(b['families'])) + list(range(len(FAMILIES) - len(COMPOSITE_FAMILIES), len(FAMILIES)))
+    for fi in fams:
+        for container in ('ranges', 'ranges-list'):
+            for cform, nc in _SPLIT_FORM_COUNTS[tier]:
+                for nform, nn in _SPLIT_FORM_COUNTS[tier]:
+                    sp.append({'part': 'splitting', 'family': fi, 'container': container,
+                               'code_form': cform, 'n_code': nc, 'noise_form': nform, 'n_noise': nn})
+    sp.sort(key=lambda c: (c['n_code'] * c['n_noise'], c['family'], c['container']))
+    out += sp
     # sessions: specs in different parameter forms parsed one after the other in ONE process
     for fi in range(b['families']):
         # (an asymmetric subset of the sizes after the full set: a mix-up between two sizes of the full
@@ -466,6 +505,8 @@ def eval_case(case):
         return eval_registry(case)
     if case['part'] == 'roundtrip':
         return eval_roundtrip(case)
+    if case['part'] == 'splitting':
+        return eval_splitting(case)
     return eval_expand(case)
 
 
@@ -1144,6 +1185,187 @@ def eval_expand(case):
             t = ('raises', v['key']['exc'], v['key']['where'])
         else:
             t = (v['key']['kind'], v['key']['path'])
+        if t in seen:
+            continue
+        seen.add(t)
+        res['violations'].append(v)
+    res['violations'] = res['violations'][:5]
+    res['outcomes'] = sorted(set(res['outcomes']))[:50]
+    return res
+
+
+# --------------------------------------------------------------------------------------------
+# part 4: the splitting method
+
+def _split_method_defaults():
+    from panqec.simulation import SplittingSimulation
+    sig = inspect.signature(SplittingSimulation.__init__)
+    return {k: sig.parameters[k].default for k in ('n_init_runs', 'start_run')
+            if sig.parameters[k].default is not inspect.Parameter.empty}
+
+
+def ref_split_observation(code_name, cp, nz, dec_name, dreq, rates, mparams):
+    c = ref_code(code_name, cp)
+    n = ref_noise(nz)
+    d = ref_decoder(dec_name, dreq)
+    m = _split_method_defaults()
+    m.update(mparams)
+    return cj({'sim': 'SplittingSimulation', 'code': c, 'noise': n, 'decoder': d, 'rates': sorted(rates),
+               'method': m,
+               'recorded': [c[0], c[1], c[2], n[0], n[1], d[0], d[1], sorted(rates),
+                            {'name': 'splitting', 'parameters': m}]})
+
+
+def observe_split(sim):
+    """canonical observation of a SplittingSimulation, and the list of pairing problems inside it."""
+    code, em = sim.code, sim.error_model
+    cp = code.params
+    decs = list(sim.decoders)
+    rates = [canon(r) for r in sim.error_rates]
+    problems = []
+    if len(decs) != len(rates):
+        problems.append(('splitting-decoder-count', {'n_decoders': len(decs), 'n_rates': len(rates)}))
+    wrong = [[i, rates[i], canon(d.error_rate)] for i, d in enumerate(decs[:len(rates)])
+             if canon(d.error_rate) != rates[i]]
+    if wrong:
+        problems.append(('splitting-decoder-built-for-other-rate',
+                         {'error_rates': rates, 'decoder_error_rates': [canon(d.error_rate) for d in decs],
+                          'first': wrong[0]}))
+    c_part = canon([type(code).__name__, {k: cp.get(k) for k in _CODE_KEYS},
+                    code.n if type(code).__name__ in _REF_N else None])
+    n_part = canon([type(em).__name__, em.params])
+    other = [i for i, d in enumerate(decs)
+             if canon([type(d.code).__name__, {k: d.code.params.get(k) for k in _CODE_KEYS}]) != c_part[:2]
+             or canon([type(d.error_model).__name__, d.error_model.params]) != n_part]
+    if other:
+        problems.append(('splitting-decoder-bound-to-other-code-or-noise', {'decoder_indices': other[:4]}))
+    dparts = sorted({cj([type(d).__name__, d.params]) for d in decs})
+    inp = sim._inputs
+    obs = json.dumps({
+        'sim': type(sim).__name__, 'code': c_part, 'noise': n_part,
+        'decoder': json.loads(dparts[0]) if len(dparts) == 1 else [json.loads(x) for x in dparts],
+        'rates': sorted(rates),
+        'method': canon({'n_init_runs': sim.n_init_runs, 'start_run': sim.start_run}),
+        'recorded': canon([inp['code']['name'], {k: inp['code']['parameters'].get(k) for k in _CODE_KEYS},
+                           inp['code']['n'] if inp['code']['name'] in _REF_N else None,
+                           inp['error_model']['name'], inp['error_model']['parameters'],
+                           inp['decoder']['name'], inp['decoder']['parameters'],
+                           sorted(canon(list(inp.get('error_rates', [])))), inp.get('method')]),
+    }, sort_keys=True)
+    return obs, problems
+
+
+class _DecView:
+    """one (simulation, decoder index) of a SplittingSimulation seen as a single-decoder simulation"""
+    def __init__(self, sim, i):
+        self.code, self.error_model = sim.code, sim.error_model
+        self.decoder, self.error_rate = sim.decoders[i], sim.decoders[i].error_rate
+
+
+def eval_splitting(case):
+    from panqec.simulation import read_input_dict, read_input_json
+    fam = FAMILIES[case['family']]
+    res = _new_res()
+    all_v = []
+    digests, nontrivial = set(), set()
+    tmp = tempfile.mkdtemp(prefix='c13_', dir='/dev/shm' if os.path.isdir('/dev/shm') else None)
+    spec_list = [(df, rf, mi) for df in DEC_FORMS for rf in range(len(SPLIT_RATE_FORMS))
+                 for mi in range(len(SPLIT_METHOD_PARAMS))]
+    try:
+        for si, (dec_form, rfi, mi) in enumerate(spec_list):
+            order, n_rates, rate_field = SPLIT_RATE_FORMS[rfi]
+            rates = [rate_field] if order == 'scalar' else list(rate_field)
+            mparams = SPLIT_METHOD_PARAMS[mi]
+            rng, product = _range_and_product(fam, case['code_form'], case['n_code'], case['noise_form'],
+                                              case['n_noise'], dec_form, 'list', 1)
+            rng['error_rate'] = rate_field
+            rng['method'] = {'name': 'splitting', 'parameters': dict(mparams)}
+            expected = collections.Counter()
+            for (cname, cp, nz, dname, dreq, _r) in product:       # one element per (code, noise, decoder set)
+                expected[ref_split_observation(cname, cp, nz, dname, dreq, rates, mparams)] += 1
+            if case['container'] == 'ranges':
+                spec = {'ranges': rng}
+            else:
+                rng2, product2 = _second_range()                   # a direct-method range next to it
+                spec = {'ranges': [rng, rng2]}
+                expected.update(ref_observation(*t) for t in product2)
+            text = json.dumps(spec)
+            dg = _digest(text)
+            digests.add(dg)
+            if len(rates) >= 2:
+                nontrivial.add(dg)
+            key0 = {'method': 'splitting', 'family': fam['code'], 'decoder': fam['decoder'],
+                    'container': case['container'], 'code_form': case['code_form'], 'n_code': case['n_code'],
+                    'noise_form': case['noise_form'], 'n_noise': case['n_noise'], 'dec_form': dec_form,
+                    'rate_order': order, 'n_rates': n_rates, 'method_parameters': sorted(mparams),
+                    'n_expected': sum(expected.values())}
+            spec_path = os.path.join(tmp, 'spec%d.json' % si)
+            with open(spec_path, 'w') as f:
+                f.write(text)
+            out_path = os.path.join(tmp, 'out%d.json' % si)
+            paths = [('read_input_json', lambda: read_input_json(spec_path, out_path)),
+                     ('read_input_dict', lambda: read_input_dict(json.loads(text), out_path, verbose=False))]
+            if si == len(spec_list) - 1:
+                paths.append(('panqec-run', lambda: _via_cli(spec_path, out_path)))
+            status = []
+            for pname, fn in paths:
+                res['evals'] += 1
+                try:
+                    with _quiet():
+                        batch = fn()
+                    sims = list(batch._simulations)
+                    obs, problems, views = [], [], []
+                    for s in sims:
+                        if hasattr(s, 'decoders'):
+                            o, pr = observe_split(s)
+                            obs.append(o)
+                            problems += pr
+                            views += [_DecView(s, i) for i in range(len(s.decoders))]
+                        else:
+                            obs.append(observe(s))
+                    got = collections.Counter(obs)
+                    cprob, ncomp = composite_batch_problems(views)
+                except Exception as exc:
+                    status.append('raises:' + type(exc).__name__)
+                    all_v.append({'key': dict(key0, kind='raises', path=pname, exc=type(exc).__name__,
+                                              where=_where(exc)),
+                                  'detail': {'message': str(exc)[:200],
+                                             'spec': spec if len(text) < 1500 else text[:1500]}})
+                    continue
+                _bump(res, 'splitting_simulations', sum(1 for s in sims if hasattr(s, 'decoders')))
+                _bump(res, 'composite_decoders_checked', ncomp)
+                seen_kind = set()
+                for kind, det in problems:
+                    if kind not in seen_kind:
+                        seen_kind.add(kind)
+                        all_v.append({'key': dict(key0, kind=kind, path=pname),
+                                      'detail': dict(det, spec=spec if len(text) < 1500 else text[:1500])})
+                for kind, kf, det in cprob:
+                    all_v.append({'key': dict(key0, kind=kind, path=pname, **kf), 'detail': det})
+                if got != expected:
+                    missing, extra = _multiset_diff(got, expected)
+                    status.append('mismatch')
+                    all_v.append({'key': dict(key0, kind='expansion-mismatch', path=pname,
+                                              n_got=sum(got.values()), dropped=bool(missing),
+                                              unrequested_or_duplicated=bool(extra)),
+                                  'detail': {'missing': [json.loads(x) for x in list(missing)[:2]],
+                                             'extra': [json.loads(x) for x in list(extra)[:2]],
+                                             'n_missing': sum(missing.values()), 'n_extra': sum(extra.values()),
+                                             'spec': spec if len(text) < 1500 else text[:1500]}})
+                else:
+                    status.append(('ok%d' if not problems else 'paired-wrong%d') % len(sims))
+            res['outcomes'].append('split|%s|%s' % (case['container'], ','.join(status)))
+            if si == len(spec_list) - 1:
+                res['samples'].append({'spec': spec if len(text) < 900 else text[:900],
+                                       'expected_simulations': sum(expected.values()), 'status': status})
+    finally:
+        shutil.rmtree(tmp, ignore_errors=True)
+    res['nontrivial'] = len(nontrivial)
+    _bump(res, 'splitting_specs', len(digests))
+    _bump(res, 'violations_total', len(all_v))
+    seen = set()
+    for v in all_v:
+        t = (v['key']['kind'], v['key']['path'])
         if t in seen:
             continue
         seen.add(t)
